@@ -25,6 +25,7 @@ package metrics
 import (
 	"fmt"
 	"runtime"
+	"sort"
 	"sync"
 	"sync/atomic"
 	"time"
@@ -489,9 +490,16 @@ func (mc *Collector) metricKey(name string, tags map[string]string) string {
 		return name
 	}
 
+	// Render the tags in sorted key order: map iteration order is random, and the
+	// same tags must always give the same key (one series per identity).
+	keys := make([]string, 0, len(tags))
+	for k := range tags {
+		keys = append(keys, k)
+	}
+	sort.Strings(keys)
 	key := name
-	for k, v := range tags {
-		key += ":" + k + "=" + v
+	for _, k := range keys {
+		key += ":" + k + "=" + tags[k]
 	}
 	return key
 }
